@@ -347,7 +347,7 @@ def flat_recipes(ka, kb):
     if ka == "P":
         return ("on", "off", "free")
     if ka in one and kb in one:
-        r = ["collinear", "parallel-off", "cross", "cross-hit", "cross-end", "cross-shared-projection", "skew", "free"]
+        r = ["collinear", "parallel-off", "cross", "cross-hit", "cross-end", "cross-shared-projection", "cross-inexact-elimination", "skew", "free"]
         if ka != "L" and kb != "L":
             r.insert(1, "touch")
         return tuple(r)
@@ -364,8 +364,59 @@ def flat_recipes(ka, kb):
     return ("coincident", "parallel-off", "crossing", "perpendicular", "free")
 
 
+def _inexact_table():
+    """(x, y, k): quarter-lattice x, y and a factor k with |kx|, |ky| <= 8 such that eliminating y/x against (kx, ky)
+    in floating point leaves a rounding residue instead of 0 (the quotient y/x is not a short binary fraction and
+    its product with kx rounds away from ky)"""
+    out = []
+    qs = [F(n, 4) for n in range(-32, 33) if n != 0]
+    for x in qs:
+        for y in qs:
+            if x == 0 or y == 0 or abs(x) == abs(y):
+                continue
+            for k in (F(3), F(-3), F(2), F(3, 2), F(-5, 2), F(5)):
+                if abs(k * x) > 8 or abs(k * y) > 8:
+                    continue
+                fx, fy, fk = float(x), float(y), float(k)
+                # either row may become the pivot row (partial pivoting or not): inexact in at least one orientation
+                if (fk * fy) + (fk * fx) * (fy / fx * -1) != 0.0 or (fk * fx) + (fk * fy) * (fx / fy * -1) != 0.0:
+                    out.append((x, y, k))
+    return out
+
+
+INEXACT = _inexact_table()
+
+
+@st.composite
+def inexact_shared_projection(draw, ka, kb):
+    """two crossing 1-D flats whose directions are proportional in two coordinates with a quotient that float
+    elimination cannot cancel exactly (a rounding residue of ~1e-16 is left where the exact value is 0)"""
+    x, y, k = draw(st.sampled_from(INEXACT))
+    i = draw(st.integers(0, 2))
+    j, l = [t for t in range(3) if t != i]
+    if draw(st.booleans()):
+        j, l = l, j
+    z1 = F(draw(st.integers(-8, 8)), 4)
+    z2 = F(draw(st.integers(-8, 8)), 4)
+    d = [F(0)] * 3
+    e = [F(0)] * 3
+    d[j], d[l], d[i] = x, y, z1
+    e[j], e[l], e[i] = k * x, k * y, z2
+    assume(not is_zero_cross(tuple(d), tuple(e)))
+    hit = draw(lattice_point(3))
+    ta = draw(st.sampled_from((F(0), F(1, 4), F(1, 2), F(1))))
+    tb = draw(st.sampled_from((F(0), F(1, 4), F(1, 2), F(1))))
+    if draw(st.booleans()):
+        d, e = e, d
+    a = mk1d(ka, X.sub(hit, X.mul(ta, tuple(d))), tuple(d))
+    b = mk1d(kb, X.sub(hit, X.mul(tb, tuple(e))), tuple(e))
+    return (a, b)
+
+
 @st.composite
 def flat_pair(draw, ka, kb, recipe):
+    if recipe == "cross-inexact-elimination":
+        return draw(inexact_shared_projection(ka, kb))
     a = draw(free_flat(ka))
     b = draw(related_flat(a, kb, recipe))
     if recipe == "hash-quirk":
